@@ -116,9 +116,12 @@ EVALUATORS = {"pair": eval_pair}
 
 HOSTS_Q = ["fr.lemonde.fr", "co.uk.bbc.co.uk", "com.evil.com", "lemonde.fr", "www.lemonde.fr", "a.www.lemonde.fr", "lemonde.fr.evil.com", "evil.com", "fr.evil.com",
            "bbc.co.uk", "news.bbc.co.uk", "co.uk", "uk", "kawasaki.jp", "x.kawasaki.jp", "a.x.kawasaki.jp",
-           "city.kawasaki.jp", "foo.unknowntld", "fr"]
+           "city.kawasaki.jp", "foo.unknowntld", "fr",
+           # an inner label that begins with the text of the suffix; an all-digit leftmost label
+           "company.com", "shop.company.com", "1.bp.evil.com", "bp.evil.com"]
 HOSTS_T = HOSTS_Q + ["b.a.x.kawasaki.jp", "a.city.kawasaki.jp", "jp", "com", "xlemonde.fr", "lemonde.frx", "monde.fr",
-                     "a.foo.unknowntld", "blogspot.com", "me.blogspot.com", "LeMonde.FR"]
+                     "a.foo.unknowntld", "blogspot.com", "me.blogspot.com", "LeMonde.FR",
+                     "shop.com", "news.co.uk.bbc.co.uk", "2.cdn.bbc.co.uk", "cdn.bbc.co.uk", "0.evil.com"]
 PATHS_Q = ["", "/", "/a", "/a/", "/a/b", "/a/b/c", "/ab"]
 PATHS_T = PATHS_Q + ["/a//b", "/b", "/a/b/", "/A"]
 TAILS = ["", "?q=1", "#f", "?q=1#f"]
